@@ -339,17 +339,19 @@ class MultiCrossBlockRepeat(Block):
         if that combination results in the exclude level or if the combination
         is not possible based on the level's definition.
         """
-        ret = []
+        cl = {l.factor: l for l in c}
 
-        cx = {l.factor: l.name for l in c}
+        def yields(level) -> Optional[bool]:
+            # None means that the combination contradicts the definition of a derived level that it contains
+            for f in filter(lambda f: isinstance(f, DerivedFactor), level.window.factors):
+                if not yields(cl[f]):
+                    return None
+            # Invoking the predicate this way is only ok because we only do this for WithinTrial windows.
+            # With complex windows, it wouldn't work due to the list aspect for each argument.
+            return level.window.predicate(*[cl[f].name for f in level.window.factors])
 
-        for f in filter(lambda f: isinstance(f, DerivedFactor), excluded_level.window.factors):
-            if self.__excluded_derived(cx[f], c):
-                return True
-
-        # Invoking the predicate this way is only ok because we only do this for WithinTrial windows.
-        # With complex windows, it wouldn't work due to the list aspect for each argument.
-        return excluded_level.window.predicate(*[cx[f] for f in excluded_level.window.factors])
+        result = yields(excluded_level)
+        return result is None or result
 
     def __select_crossing(self, crossing: Optional[List[Factor]]) -> List[Factor]:
         if not crossing:
